@@ -29,7 +29,7 @@ STALL_S = 300
 
 def plan(tier, seed):
     units = []
-    reps = 2 if tier == 'quick' else 12
+    reps = 5 if tier == 'quick' else 16
     for rep in range(reps):
         for proto in ('tlcp', 'tls12', 'tls13'):
             for mutual in (False, True):
